@@ -455,6 +455,64 @@ def case_composite(case):
     return {"v": v, "t": t, "o": "%s|%s|%d|%d" % (model, tuple(shape), n, len(v)), "nt": len(pairs) > 1}
 
 
+def case_polygon(case):
+    """Polygon.circle_parameters reports the circles of the polygon's edge segments (in the order of the
+    vertices, the last edge closing up), with and without flatten, in degrees or radians: each edge is
+    bound to the answer of the single Segment(v_i, v_{i+1}), itself decided by the pairs sections."""
+    from geometry_tools import hyperbolic as H
+    model, deg, flatten, shape = case["model"], case["deg"], case["flatten"], tuple(case["shape"])
+    polys = case["polys"]                                  # N polygons, each k Klein points of H^2
+    k = len(polys[0])
+    rows = np.array([[_row(x) for x in pg] for pg in polys], dtype=float)          # (N, k, 3)
+    v, t = [], 1
+    poly = H.Polygon(rows.reshape(shape + (k, 3)).copy())
+    where = "Polygon array of shape %s with %d vertices, %s, degrees=%r, flatten=%r" % (shape, k, model, deg, flatten)
+    try:
+        out = poly.circle_parameters(degrees=deg, model=model, flatten=flatten)
+    except TypeError as e:
+        return {"v": [_V("polygon/circle_parameters/raises", "%s: %s" % (where, e))], "t": 1}
+    c, r, th = (np.asarray(x, dtype=float) for x in out)
+    lead = (len(polys) * k,) if flatten else shape + (k,)
+    if c.shape != lead + (2,) or r.shape != lead or th.shape != lead + (2,):
+        return {"v": [_V("polygon/circle_parameters/shape", "%s: shapes %r %r %r, expected leading axes %r"
+                         % (where, c.shape, r.shape, th.shape, lead))], "t": 1}
+    c, r, th = c.reshape(-1, 2), r.reshape(-1), th.reshape(-1, 2)
+    full = 360.0 if deg else 2 * np.pi
+    for i in range(len(polys)):
+        for j in range(k):
+            single = H.Segment(np.array([rows[i, j], rows[i, (j + 1) % k]]))
+            c1, r1, th1 = single.circle_parameters(degrees=deg, model=model)
+            t += 1
+            r1 = float(r1)
+            u = i * k + j
+            if not (np.isfinite(r1) and r1 < 1e3):
+                continue
+            scale = (1.0 + r1) ** 2
+            if not np.max(np.abs(c[u] - np.ravel(c1))) <= 1e-6 * scale or not abs(r[u] - r1) <= 1e-6 * scale:
+                v.append(_V("polygon/%s/centre-radius" % model, "%s, polygon %d edge %d: centre %s radius %.9g, the edge segment alone gives %s %.9g"
+                            % (where, i, j, _f(c[u]), r[u], _f(c1), r1)))
+            d = np.abs((th[u] - np.ravel(th1) + full / 2) % full - full / 2)
+            if not np.max(d) <= (1e-5 * (180 / np.pi if deg else 1.0)) * scale:
+                v.append(_V("polygon/%s/angles" % model, "%s, polygon %d edge %d: angles %s, the edge segment alone gives %s"
+                            % (where, i, j, _f(th[u]), _f(th1))))
+    return {"v": v[:4], "t": t, "o": "%s|%s|%d|%r|%d" % (model, shape, k, flatten, len(v)), "nt": True}
+
+
+def polygon_cases(q, seed):
+    P, I = _alphabet(2, True, seed)
+    pts = [list(map(float, x)) for x in P[:7]]
+    for k in (3, 4, 5):
+        tuples = [list(c) for c in itertools.permutations(pts, k)]
+        tuples = tuples[::(7 if k == 3 else 40 if k == 4 else 240)] if q else tuples[::(2 if k == 3 else 8 if k == 4 else 40)]
+        for (size, shape) in ((1, []), (2, [2]), (4, [2, 2])):
+            blocks = [tuples[i:i + size] for i in range(0, len(tuples) - size + 1, size)]
+            for blk in blocks:
+                for model in MODELS:
+                    for deg in (True, False):
+                        for flatten in (False, True):
+                            yield {"polys": blk, "shape": shape, "model": model, "deg": deg, "flatten": flatten}
+
+
 def composite_cases(q, seed):
     """Blocks of consecutive ordered pairs of the lattice, packed as composite Segments of several shapes."""
     for n in ((2, 3) if q else (2, 3, 4)):
@@ -761,6 +819,11 @@ def run(ctx):
         ctx.product("composite-segments", "checks.c14:case_composite", list(composite_cases(q, seed)), chunk=8,
                     domains={"n": [2, 3] if q else [2, 3, 4], "shapes": [[6], [2, 3], [2, 1, 2], [1]], "pairs": "consecutive blocks of all ordered pairs of 12 lattice points",
                              "oracle": "the single-object answer for each unit (itself decided by the sections above)"})
+    if want("polygon"):
+        ctx.product("polygon-edges", "checks.c14:case_polygon", list(polygon_cases(q, seed)), chunk=16,
+                    domains={"vertices": "ordered 3-, 4-, 5-tuples of 7 lattice points of H^2 (every 7th / 40th / 240th in quick)",
+                             "shapes": [[], [2], [2, 2]], "flatten": [False, True], "units": ["degrees", "radians"],
+                             "oracle": "Segment(v_i, v_i+1).circle_parameters for each edge (decided by pairs-H2)"})
     if want("histories"):
         ctx.product("histories", "checks.c14:case_history", list(history_cases(q, seed)), chunk=32,
                     domains={"ops": HIST_OPS, "sequences": "all op sequences of length <= 3 that contain a query before the last (non-query) op",
